@@ -86,10 +86,16 @@ def invoke(fn, names_, args, environment, pos):
                         names.append(key.value)
                     else:
                         names.append(None)
-            else:
+            elif argvalue.isList() or argvalue.isSet():
                 for value in argvalue.value:
                     values.append(value)
                     names.append(None)
+            else:
+                raise CklRuntimeError(
+                    ValueString("ERROR"),
+                    f"Cannot spread {argvalue.type()} value",
+                    pos,
+                )
         else:
             values.append(arg.evaluate(environment))
             names.append(names_[i])
@@ -1213,6 +1219,12 @@ class NodeList:
         for item in self.items:
             if isinstance(item, NodeSpread):
                 lst = item.evaluate(environment)
+                if not (lst.isList() or lst.isSet() or lst.isMap()):
+                    raise CklRuntimeError(
+                        ValueString("ERROR"),
+                        f"Cannot spread {lst.type()} value",
+                        self.pos,
+                    )
                 for value in lst.value:
                     result.addItem(value)
             else:
